@@ -81,6 +81,12 @@ original, siblings - must keep its complete fingerprint; objects derived later f
 derivation on a fresh world that received the same switches.  (All other cells keep the older ``enable_fd`` operation: a coarse
 spacing set on a derived object and reverted at once.)
 
+Functions of several variables (specials ``callable3-gauss``, ``callable2-gauss``).  A parameter given as a plain function of
+SEVERAL conditioning variables is fixed in successive PARTIAL conditionings; each intermediate copy (still conditional, its parameter
+a partially evaluated function) is a pool member: it is conditioned further (every subset of what is left, and a second value of the
+shared variable b in sibling histories) and, like every live object, must keep its conditioning variables, parameter names and its
+log-density under full conditioning after every later step on itself, on its source or on its siblings.
+
 The depth-first search keeps live objects (legitimate exactly as long as nothing was altered - which is what is
 re-checked after every step); every detected alteration is confirmed by replaying its history on a FRESH world
 before it is reported, and the live world is rebuilt from scratch before the search continues.
@@ -93,8 +99,11 @@ from vfw import refs
 from checks import _graphs as GR
 
 PROPERTY = "C11"
-RULE = ("cells = original object (every joint and every factor of graphs G1..G10, 24 specials = 2 models + 2 plain distributions of unknown "
-        "dimension + the wrapper family {Lognormal, RegularizedGaussian, ConstrainedGaussian, NonnegativeGaussian, RegularizedGMRF, "
+RULE = ("cells = original object (every joint and every factor of graphs G1..G10, 26 specials = 2 models + 2 plain distributions of unknown "
+        "dimension + 2 Gaussians whose parameters are plain functions of SEVERAL conditioning variables (callable3-gauss: mean(a, b, c); "
+        "callable2-gauss: mean(a, b) and cov(b, c) sharing b), reached by successive PARTIAL conditionings so that every still-conditional "
+        "intermediate copy is a live object that is conditioned further (partially / fully, and on a second value of b in sibling "
+        "histories) and re-fingerprinted after every step + the wrapper family {Lognormal, RegularizedGaussian, ConstrainedGaussian, NonnegativeGaussian, RegularizedGMRF, "
         "ConstrainedGMRF, NonnegativeGMRF} x {all parameters numbers | second parameter a function | mean a function and no geometry: "
         "dimension unknown until conditioned, sibling copies conditioned on values of 4 and of 2 entries (refused by the GMRF classes "
         "at construction)} + RegularizedUnboundedUniform + JointGaussianSqrtPrec; 8 joint worlds wrapj = JointDistribution(y | x ~ "
@@ -148,6 +157,8 @@ BOUND = {
              "value is assigned back before the sibling histories continue); "
              "the 72 Gaussian matrix worlds at depth 2 with assign closing a history; finite-difference worlds: factors G1.y and G1.x, "
              "the linear joint world lin:mat:id:joint (tracked factors switched too) and lognormal-cond at depth 3; "
+             "the two function-of-several-variables Gaussians (callable3-gauss, callable2-gauss) at depth 2 with cond on every singleton / the "
+             "full set of the original and on every subset of the parameters of each intermediate, plus condB(b = a second value); "
              "1 value catalogue (seed%3); conditioning alphabet = all non-empty subsets of the target's parameters "
              "(<=3 parameters) or singletons + full set (>=4); horizon run: 200 alternating re-conditionings of G1; "
              "naming: N1 (focus y, x) and N2 (focus z, s) to depth 3, N3 (focus y, d) to depth 2, 1 catalogue; routes: inferred names x "
@@ -165,6 +176,7 @@ BOUND = {
                 "finite-difference worlds (catalogue 0): every joint (depth 3 for <= 3 variables, else 2) and every factor of G1..G10 "
                 "(depth 3), the 10 older specials, the 30 linear worlds and gmat:sqrtprec:fullF:small:* at depth 3, G1.y, G1.x and "
                 "lin:mat:id:joint also at depth 4; "
+                "callable3-gauss / callable2-gauss at depth 3 in 3 catalogues (not at depth 4, not in the finite-difference worlds); "
                 "3 value catalogues at depth 3 for every factor and special; joints at depth 3 in catalogue 0 (G3, G9 in all "
                 "catalogues) and depth 2 otherwise; in addition depth 4 for factors with <=2 "
                 "parameters and for the specials in catalogue 0; horizon run: 2000 alternating "
@@ -196,6 +208,10 @@ ASSUMPTIONS = [
     "wrapper worlds: the extra fingerprint entries (sqrtprec, sqrtprecTimesMean, prior / carried-distribution parameters) are read "
     "in the wrapper-family and wrapj worlds only; an alteration of a nan-valued implicit prior inside a graph cell would be seen "
     "through its public mutable attributes only",
+    "functions of several variables as parameters: one Gaussian with mean(a, b, c) (3 scalar variables) and one with mean(a, b), "
+    "cov(b, c) (2 + 2 variables, one shared), dimension 2 given by geometry; plain lambdas only (no functools.partial or callable object "
+    "handed in by the user), at most 3 successive conditionings (quick: 2); signatures of these worlds carry the facet "
+    "[function-of-several-variables] after the class name",
     "a cell whose fresh original answers the read-only operations of the fingerprint differently the second time is reported once "
     "(operation 'fingerprint') and not explored further",
     "refused operations: one representative per kind of malformed call (one unknown keyword, one surplus argument, the first "
@@ -226,7 +242,11 @@ JOINTS = GR.ORDER + GR.ORDER5
 # ----------------------------------------------------------------------------------------
 QUICK_SHALLOW = {("G2", "y"), ("G5", "y2"), ("G7", "y"), ("G8", "y"), ("G9", "y"), ("G10", "y")}
 SPECIALS = ["lognormal", "lognormal-cond", "reggauss", "reggauss-cond", "reggmrf-cond", "nonneggmrf", "model-linear", "model-nonlinear",
-            "unknown-dim-normal", "unknown-dim-gamma"]
+            "unknown-dim-normal", "unknown-dim-gamma", "callable3-gauss", "callable2-gauss"]
+# callable3-gauss / callable2-gauss: a Gaussian whose parameters are PLAIN FUNCTIONS OF SEVERAL conditioning variables
+# (mean(a, b, c) / mean(a, b) and cov(b, c), the variable b shared by both parameters), so that the object is reached by SUCCESSIVE
+# PARTIAL conditionings: every intermediate copy (still conditional, its parameter a partially evaluated function) is a live
+# pool member that is conditioned further - partially and fully, in sibling histories - and re-fingerprinted after every step
 # wrapper family: every distribution class of the library that keeps ANOTHER distribution object (or the parameter blocks of
 # several) inside and forwards to it - Lognormal (inner Gaussian), Regularized / Constrained / Nonnegative Gaussian (inner
 # Gaussian, write-through setters), Regularized / Constrained / Nonnegative GMRF (inner GMRF), RegularizedUnboundedUniform
@@ -236,6 +256,7 @@ SPECIALS = ["lognormal", "lognormal-cond", "reggauss", "reggauss-cond", "reggmrf
 # sibling copies conditioned on m of 4 and of 2 entries).  The GMRF classes refuse the unk construction (a GMRF needs its
 # geometry at construction); RegularizedUnboundedUniform and JointGaussianSqrtPrec have no parameter that may be a function.
 # name of the special -> (class key, variant)
+CALLABLE_WORLDS = ("callable3-gauss", "callable2-gauss")
 WRAP = {
     "lognormal": ("lognormal", "known"), "lognormal-cond": ("lognormal", "cond"), "unknown-dim-lognormal": ("lognormal", "unk"),
     "reggauss": ("reggauss", "known"), "reggauss-cond": ("reggauss", "cond"), "unknown-dim-reggauss": ("reggauss", "unk"),
@@ -326,6 +347,11 @@ def cells(tier, seed):
                     d = 3 if (npar >= 3 or k != cats[0]) else 4
                 out.append({"kind": "factor", "graph": gid, "name": name, "cat": k, "depth": d})
         for sp in SPECIALS:
+            if sp in CALLABLE_WORLDS:
+                # 4 parameters and sibling values: depth 2 in quick (two successive partial conditionings + the fingerprints
+                # of all intermediates), depth 3 in thorough
+                out.append({"kind": "special", "name": sp, "cat": k, "depth": 2 if q else 3})
+                continue
             out.append({"kind": "special", "name": sp, "cat": k, "depth": 3 if (q or k != cats[0]) else 4})
         for sp in lin_specials(tier):
             out.append({"kind": "special", "name": sp, "cat": k, "depth": 2 if q else 3})
@@ -348,7 +374,7 @@ def cells(tier, seed):
             fdc.append(("joint", gid, None, 3 if len(g.free) <= 3 else 2))
             for name in g.free + g.data0:
                 fdc.append(("factor", gid, name, 3))
-        for sp in SPECIALS + lin_specials(tier) + ["gmat:sqrtprec:fullF:small:%s" % v for v in GM_VARIANTS]:
+        for sp in [_s for _s in SPECIALS if _s not in CALLABLE_WORLDS] + lin_specials(tier) + ["gmat:sqrtprec:fullF:small:%s" % v for v in GM_VARIANTS]:
             fdc.append(("special", sp, None, 3))
     for kind, a, b, d in fdc:
         c = {"kind": kind, "cat": cats[0], "depth": d, "alphabet": "fd"}
@@ -562,6 +588,19 @@ class World:
                 self.vals = {"x": pos(refs.dyadic_vec(4, k)), "a": pos(refs.dyadic_vec(4, k + 1)) + 1, "b": pos(refs.dyadic_vec(4, k + 2))}
                 self.valsB = {"x": pos(refs.dyadic_vec(4, k + 3)), "a": pos(refs.dyadic_vec(4, k + 4)) + 1, "b": pos(refs.dyadic_vec(4, k + 5))}
                 self.valsC = {"a": np.array([2.0 + 0.5 * k]), "b": np.array([1.5])}
+            self.use_condB = True
+        elif name in ("callable3-gauss", "callable2-gauss"):
+            _v = [refs.dyadic_vec(2, k + 1 + _j, scale=0.25) for _j in range(3)]
+            if name == "callable3-gauss":
+                self.add(self.mk(D.Gaussian, mean=lambda a, b, c: a * _v[0] + 10.0 * b * _v[1] + 100.0 * c * _v[2], cov=C2,
+                                 geometry=2, name="x"), "original")
+            else:
+                self.add(self.mk(D.Gaussian, mean=lambda a, b: a * _v[0] + 10.0 * b * _v[1],
+                                 cov=lambda b, c: (0.5 + b * b + c) * C2, geometry=2, name="x"), "original")
+            self.vals = {"x": refs.dyadic_vec(2, k, scale=0.5), "a": [1.0, 1.25, 2.5][k], "b": [-0.5, 2.0, 0.75][k], "c": [1.5, 0.25, 3.0][k]}
+            self.valsB = {"x": refs.dyadic_vec(2, k + 4, scale=0.5), "a": [0.75, 2.0, 1.5][k], "b": [3.0, -1.5, 0.5][k], "c": [0.5, 1.75, 2.0][k]}
+            # sibling copies of every live object are also conditioned on ANOTHER value of the shared variable b (condB)
+            self.valsC = {"b": [2.5, 0.5, -1.25][k]}
             self.use_condB = True
         elif name.startswith("gmat:"):
             _, par, sto, sz, var = name.split(":")
@@ -1576,6 +1615,8 @@ class Explorer:
 
     def report(self, w, history, j, entry, opname, before, after, confirmed, latent_log=None, new_object=False):
         cls = type(w.objs[j]).__name__
+        if self.cell.get("name") in CALLABLE_WORLDS:
+            cls += "[function-of-several-variables]"      # facet: parameters that are partially evaluated functions
         role = w.role[j]
         if history:
             tgt = history[-1][1]
